@@ -127,6 +127,32 @@ def gen_random(rng, n):
         yield p, s
 
 
+def gen_structured(rng, n):
+    """Patterns shaped like the ones policies hold: ARNs of five to eight ':'-separated components and paths holding
+    policy-variable spellings (`${*}`, `${?}`, `${$}`, `${aws:username}`); a `*` is instantiated with runs that may hold
+    ':' and '/', so a matcher working component by component, or reading `${…}` as an escape, disagrees."""
+    comps = ["arn", "aws", "sns", "s3", "", "*", "*", "?", "a*", "*b", "eu-west-?", "111122223333", "alerts", "team/*",
+             "${*}", "${?}", "${$}", "${aws:username}", "x${*}y", "$", "{", "}", "${", "*}"]
+    alphabet = "ab:/3${}*?-"
+    lit = "ab:/3${}-"
+    for _ in range(n):
+        k = rng.randrange(3)
+        if k == 0:
+            p = ":".join(rng.choice(comps) for _ in range(rng.choice([5, 6, 6, 6, 7, 8])))
+        elif k == 1:
+            p = "/".join(rng.choice(["home", "${*}", "${?}", "${$}", "*", "?", "inbox", "${aws:username}"]) for _ in range(rng.choice([2, 3, 4])))
+        else:
+            p = rng.choice(["price-", "cost", "a", ""]) + rng.choice(["${*}", "${?}", "${$}", "${x}"]) + rng.choice(["", "b", "*", "?"])
+        r = rng.random()
+        if r < 0.35:
+            s = p  # the pattern text itself: every literal matches itself, wildcards match themselves as characters
+        else:
+            s = instantiate(rng, p, lit)
+            if r > 0.75:
+                s = perturb(rng, s, alphabet)
+        yield p, s
+
+
 def classify(p, s, ci, impl_out, model_out):
     if "build_error" in impl_out:
         return f"matcher-build-fails:{impl_out['build_error']}"
@@ -165,7 +191,8 @@ def run(report, tier, seed, driver, proofs_ok):
         "StatementCondition call), expand (_expand_action against catalogue entries). Literal sweep: every code point "
         "U+0020..U+FFFF (no surrogates, not * ?) as a one-character pattern against itself, its successor, the empty "
         "string and itself doubled. Random: patterns over letters, regex metacharacters, * and ? (≤4 stars); strings "
-        "instantiated from the pattern then perturbed. distinct_nontrivial = distinct (route, pattern, string) whose "
+        "instantiated from the pattern then perturbed. Structured: ARN-shaped patterns of 5-8 components and paths with "
+        "policy-variable spellings (${*}, ${?}, ${$}), candidates whose * runs hold ':' and '/'. distinct_nontrivial = distinct (route, pattern, string) whose "
         "pattern contains a wildcard or a regex metacharacter or a cased letter, i.e. where glob and regex/case "
         "semantics can differ."
     )
@@ -203,6 +230,17 @@ def run(report, tier, seed, driver, proofs_ok):
             cases.append(("regex", p, s, True))
         elif r < 0.8:
             cases.append((rng.choice(["like", "like", "arnlike", "notlike"]), p, s, False))
+        else:
+            cases.append(("condition", p, s, False))
+
+    for p, s in gen_structured(rng, 12000 if thorough else 1500):
+        if not (single_line(p) and single_line(s)):
+            continue
+        r = rng.random()
+        if r < 0.2 and ascii_case_ok(p) and ascii_case_ok(s):
+            cases.append(("regex", p, s, True))
+        elif r < 0.85:
+            cases.append((rng.choice(["like", "arnlike", "arnlike", "notlike", "arnnotlike"]), p, s, False))
         else:
             cases.append(("condition", p, s, False))
 
@@ -253,6 +291,8 @@ def run(report, tier, seed, driver, proofs_ok):
             return impl.route_like(p, s, "ArnLike")
         if route == "notlike":
             return impl.route_like(p, s, "StringNotLike")
+        if route == "arnnotlike":
+            return impl.route_like(p, s, "ArnNotLike")
         if route == "condition":
             return impl.route_condition(p, s)
         return impl.route_expand(p, s)
